@@ -155,8 +155,8 @@ void run_case(Choices& c, Report& r)
       {
       case 0:
         s.kind = 0;
-        s.count = 1u << (4 + c.pick(11)); // 16 .. 16384
-        s.size_class = c.pick(4);
+        s.count = 1u << (4 + c.pick(13)); // 16 .. 65536
+        s.size_class = kDropping ? (c.pick(2) ? 3 : c.pick(4)) : c.pick(4);
         total += s.count;
         break;
       case 1: s.kind = 1; break;
@@ -200,7 +200,11 @@ void run_case(Choices& c, Report& r)
               case 0: len = (seq * 7u) % 24u; break;
               case 1: len = (seq * 31u) % 200u; break;
               case 2: len = static_cast<uint32_t>((RT_CAP / 2) - kFixed - ((seq * 13u) % 64u)); break;
-              default: len = (seq % 7u == 0) ? static_cast<uint32_t>(RT_MAX) /* never fits a dropping/bounded queue */ : (seq * 3u) % 48u; break;
+              default:
+                // long runs of statements that can never fit (dropped while the queue is EMPTY and the backend idle:
+                // the backend collects the drop counter concurrently with the producer incrementing it), then small ones
+                len = ((seq / 256u) % 4u != 3u) ? static_cast<uint32_t>(RT_MAX) : (seq * 3u) % 48u;
+                break;
               }
               if (!kDropping && len + kFixed > RT_CAP) len = static_cast<uint32_t>(RT_CAP - kFixed); // blocking: must fit (documented)
               if (!kBounded && !kDropping && len + kFixed > RT_MAX) len = 16;
